@@ -43,3 +43,33 @@ Definition real_flags (cfg : wcfg) (ss : list session) : list kflags :=
   hist_flags crc32 enc_record dec_record_slice cfg db_fresh ss.
 Definition ends_with_close (ss : list session) : Prop :=
   match rev ss with (_, EClose) :: _ => True | _ => False end.
+
+(** boolean forms, decided by computation *)
+Definition differ_b (a b : store) : bool := negb (dump_eqb (dump a latest) (dump b latest)).
+Definition last_cycle_differs_b (cfg : wcfg) (ss : list session) : bool :=
+  match last_obs (fst (real_sessions cfg ss)) with
+  | Some o => match so_after o with ROk s2 => differ_b s2 (so_before o) | RErr => false end
+  | None => false
+  end.
+Definition all_synced_b (d : disk) : bool :=
+  forallb (fun sf => f_synced (snd sf) =? lenZ (f_bytes (snd sf))) (d_files d).
+
+(** * Vocabulary of the framing and recovery statements *)
+(** the payloads [ps] decode to the records [rs], one by one *)
+Definition decodes_all {R} (dec : bytes -> option R) (ps : list bytes) (rs : list R) : Prop :=
+  Forall2 (fun p r => dec p = Some r) ps rs.
+(** every payload fits the 32-bit length field *)
+Definition all_short (ps : list bytes) : Prop := Forall (fun p => lenZ p < two32) ps.
+(** the checksum is a 32-bit value *)
+Definition crc_u32 (crc : bytes -> Z) : Prop := forall p, 0 <= crc p < two32.
+(** the checksum detects every single-bit change of payload ++ stored checksum *)
+Definition detects_1bit (crc : bytes -> Z) : Prop :=
+  forall p i b, 0 <= b < 8 -> (i < length p + 4)%nat ->
+    let q := flip_bit (p ++ le32 (crc p)) i b in
+    u32_of (skipn (length p) q) <> crc (firstn (length p) q).
+(** in the record sequence [rs], [r] is followed by a commit marker with no abort or
+    checkpoint record in between *)
+Definition commit_covered (rs : list record) (r : record) : Prop :=
+  exists l1 l2 l3 t, rs = l1 ++ r :: l2 ++ TxCommit t :: l3 /\ forallb (fun x => negb (is_clear x)) l2 = true.
+(** the records the commit markers of a record sequence publish *)
+Definition committed (rs : list record) : list record := snd (sm_run ([], []) rs).
